@@ -694,3 +694,125 @@ Qed.
 
 Lemma rewrite_refused c w : loaded_hdr (bt w) = 0 -> step c w ORewrite = (w, RErr).
 Proof. intro H. cbn [step]. unfold write_in_place. rewrite H. reflexivity. Qed.
+
+(* ---- effect of update / delete in terms of the decomposition at the first matching record ---- *)
+Lemma update_record_some s n v i : find_index (recs s) (jenkins n) 0 = Some i ->
+  exists pre r post, recs s = pre ++ r :: post /\ fst r = jenkins n /\ ~ In (jenkins n) (hashes pre) /\
+    update_record s n v =
+    (with_recs s (pre ++ (fst r, to7 v) :: post) (h_nroot (header s)) (h_total (header s)), true).
+Proof.
+  intro F. destruct (find_index_some _ _ _ F) as (pre & r & post & E & -> & Hr & Hn).
+  exists pre, r, post. repeat split; try assumption.
+  unfold update_record. rewrite F, E. rewrite nth_app_exact, firstn_exact, skipn_S_exact. reflexivity.
+Qed.
+
+Lemma remove_record_some s n i : find_index (recs s) (jenkins n) 0 = Some i ->
+  exists pre r post, recs s = pre ++ r :: post /\ fst r = jenkins n /\ ~ In (jenkins n) (hashes pre) /\
+    remove_record s n =
+    Some (with_recs s (pre ++ post) (sub16 (h_nroot (header s)) 1) (sub64 (h_total (header s)) 1)).
+Proof.
+  intro F. destruct (find_index_some _ _ _ F) as (pre & r & post & E & -> & Hr & Hn).
+  exists pre, r, post. repeat split; try assumption.
+  unfold remove_record. rewrite F, E. rewrite firstn_exact, skipn_S_exact. reflexivity.
+Qed.
+
+Lemma delete_off s n : delete_by_mode MOff s n =
+  match remove_record s n with Some s' => (s', true) | None => (s, false) end.
+Proof.
+  cbn [delete_by_mode]. unfold delete_record, delete_with_rebalancing, handle_root_depth_decrease.
+  destruct (remove_record s n); [|reflexivity]. destruct (_ && _); reflexivity.
+Qed.
+
+Lemma wrap16_succ (n : nat) : N.of_nat (S n) <= 65535 -> wrap16 (N.of_nat n + 1) = N.of_nat (S n).
+Proof. intro H. unfold wrap16. rewrite N.mod_small; lia. Qed.
+Lemma wrap64_succ (n : nat) : N.of_nat (S n) <= 65535 -> wrap64 (N.of_nat n + 1) = N.of_nat (S n).
+Proof. intro H. unfold wrap64. rewrite N.mod_small; lia. Qed.
+Lemma sub16_pred (n : nat) : N.of_nat (S n) <= 65535 -> sub16 (N.of_nat (S n)) 1 = N.of_nat n.
+Proof.
+  intro H. unfold sub16. replace (1 mod 65536) with 1 by reflexivity.
+  replace (N.of_nat (S n) + 65536 - 1) with (N.of_nat n + 1 * 65536) by lia.
+  rewrite N.mod_add by lia. apply N.mod_small. lia.
+Qed.
+Lemma sub64_pred (n : nat) : N.of_nat (S n) <= 65535 -> sub64 (N.of_nat (S n)) 1 = N.of_nat n.
+Proof.
+  intro H. unfold sub64. replace (1 mod 18446744073709551616) with 1 by reflexivity.
+  replace (N.of_nat (S n) + 18446744073709551616 - 1) with (N.of_nat n + 1 * 18446744073709551616) by lia.
+  rewrite N.mod_add by lia. apply N.mod_small. lia.
+Qed.
+
+Lemma Forall_rec_wf_mid (pre : list rec) r post : Forall rec_wf (pre ++ r :: post) ->
+  Forall rec_wf pre /\ rec_wf r /\ Forall rec_wf post.
+Proof. intro H. apply Forall_app in H. destruct H as [H1 H2]. inversion H2; subst. auto. Qed.
+
+Lemma winv_intro c w :
+  st_wf (bt w) -> node_size (bt w) = ns_of c -> sorted_h (recs (bt w)) -> lazy (bt w) = None -> 64 <= next w ->
+  (loaded_hdr (bt w) <> 0 -> loaded_leaf (bt w) + ns_of c <= loaded_hdr (bt w) /\ loaded_leaf (bt w) < lim c) ->
+  winv c w.
+Proof. intros. unfold winv. auto 10. Qed.
+
+(* every operation keeps the invariant *)
+Lemma step_winv c w o : cfg_ok c -> c_mode c = MOff -> winv c w ->
+  (o = OStoreLoad -> next w < lim c) -> winv c (fst (step c w o)).
+Proof.
+  intros Hc Hm I Hb. pose proof I as (W & Hn & Hs & Hl & Hx & Hld).
+  pose proof W as (W1 & W2 & W3 & W4 & W5 & W6 & W7 & W8 & W9 & W10 & W11 & W12 & W13).
+  pose proof W3 as (C1 & C2 & C3).
+  destruct o as [n v|n v|n|n|n| |].
+  - (* insert *)
+    cbn [step]. unfold insert_record.
+    destruct (find_index (recs (bt w)) (jenkins n) 0); [exact I|].
+    destruct (max_records (node_size (bt w)) <=? N.of_nat (List.length (recs (bt w)))) eqn:E; [exact I|].
+    apply N.leb_gt in E. cbn [fst with_bt].
+    set (rs' := insert_sorted (recs (bt w)) (jenkins n, to7 v)).
+    assert (Hlen : List.length rs' = S (List.length (recs (bt w)))) by apply insert_sorted_length.
+    rewrite W8, W9, wrap16_succ, wrap64_succ by lia. rewrite <- Hlen.
+    apply winv_intro; cbn [with_bt bt next]; try assumption.
+    + apply with_recs_wf; [exact W| |rewrite Hlen; lia].
+      eapply Permutation_Forall; [symmetry; apply insert_sorted_perm|].
+      constructor; [|exact W13]. split; [apply jenkins_lt|apply to7_length].
+    + apply insert_sorted_sorted. exact Hs.
+  - (* update *)
+    cbn [step]. destruct (find_index (recs (bt w)) (jenkins n) 0) as [i|] eqn:F.
+    + destruct (update_record_some _ n v i F) as (pre & r & post & E & Hr & Hnp & U). rewrite U.
+      cbn [fst with_bt].
+      assert (Hlen : List.length (pre ++ (fst r, to7 v) :: post) = List.length (recs (bt w)))
+        by (rewrite E, !app_length; reflexivity).
+      rewrite W8, W9, <- Hlen.
+      rewrite E in W13. destruct (Forall_rec_wf_mid _ _ _ W13) as (F1 & [F2 _] & F3).
+      apply winv_intro; cbn [with_bt bt next]; try assumption.
+      * apply with_recs_wf; [exact W| |rewrite Hlen; exact W10].
+        apply Forall_app. split; [exact F1|]. constructor; [|exact F3]. split; [exact F2|apply to7_length].
+      * unfold sorted_h. cbn [with_bt bt with_recs recs]. rewrite hashes_update. rewrite E in Hs. exact Hs.
+    + unfold update_record. rewrite F. exact I.
+  - exact I.
+  - exact I.
+  - (* delete *)
+    cbn [step]. rewrite Hm, delete_off.
+    destruct (find_index (recs (bt w)) (jenkins n) 0) as [i|] eqn:F.
+    + destruct (remove_record_some _ n i F) as (pre & r & post & E & Hr & Hnp & U). rewrite U.
+      cbn [fst with_bt].
+      assert (Hlen : List.length (recs (bt w)) = S (List.length (pre ++ post)))
+        by (rewrite E, !app_length; cbn [List.length]; lia).
+      rewrite W8, W9, Hlen, sub16_pred, sub64_pred by lia.
+      rewrite E in W13. destruct (Forall_rec_wf_mid _ _ _ W13) as (F1 & _ & F3).
+      apply winv_intro; cbn [with_bt bt next]; try assumption.
+      * apply with_recs_wf; [exact W| |lia]. apply Forall_app. split; assumption.
+      * cbn [with_bt bt with_recs recs]. apply (sorted_remove pre r post). rewrite E in Hs. exact Hs.
+    + unfold remove_record. rewrite F. exact I.
+  - (* store + load *)
+    rewrite storeload_ok by (try assumption; apply Hb; reflexivity). cbn [fst].
+    destruct Hc as [Ho Hcap].
+    apply winv_intro; cbn [bt next recs node_size lazy loaded_hdr loaded_leaf]; try assumption; try reflexivity.
+    + unfold st_wf, set_root.
+      cbn [header node_size recs leaf_recs leaf_type h_type h_node_size h_rec_size h_depth h_split h_merge h_nroot h_total].
+      rewrite <- Hn. repeat split; assumption.
+    + unfold hsz. lia.
+    + intros _. split; [lia|apply Hb; reflexivity].
+  - (* rewrite + load *)
+    destruct (N.eq_dec (loaded_hdr (bt w)) 0) as [Z|Z]; [rewrite rewrite_refused by exact Z; exact I|].
+    rewrite rewrite_ok by assumption. cbn [fst]. destruct (Hld Z) as [D1 D2].
+    apply winv_intro; cbn [bt next recs node_size lazy loaded_hdr loaded_leaf]; try assumption; try reflexivity.
+    + unfold st_wf, set_root.
+      cbn [header node_size recs leaf_recs leaf_type h_type h_node_size h_rec_size h_depth h_split h_merge h_nroot h_total].
+      rewrite <- Hn. repeat split; assumption.
+Qed.
